@@ -58,6 +58,8 @@ class CallMixin(object):
             return bi.call_builtin_method(self, fv.obj, fv.name, args, kwargs, line, node)
         if isinstance(fv, SpecFn):
             return fv.fn(self, *args, **kwargs)
+        if isinstance(fv, StubMethod):
+            return fv.stub.methods[fv.name](self, *args, **kwargs)
         if isinstance(fv, BoundMethod):
             return self.call_method(fv.obj, fv.func, args, kwargs, line)
         if isinstance(fv, FuncRef):
@@ -200,7 +202,7 @@ class CallMixin(object):
         return True
 
     def find_contract(self, func, obj, abstract_ok=False):
-        if self.contract_lookup is None:
+        if self.contract_lookup is None or getattr(self, 'force_inline', False):
             return None
         return self.contract_lookup(self, func, obj, abstract_ok)
 
@@ -217,16 +219,21 @@ class CallMixin(object):
             return []
         return None
 
+    def allocate(self, cls, name=None):
+        """a new object with zero-initialised C fields (what tp_new does), constructor not yet run"""
+        o = Obj(cls, cls.name, symbolic=False, exact=True, name=name or cls.name.lower())
+        o.ref = self.fresh(cls.name + '_new_ref', INT)
+        if getattr(cls.module, 'is_pyx', False):
+            for fname, ct in self.program.all_fields(cls).items():
+                o.fields[fname] = self.default_field_value(ct)
+        return o
+
     def instantiate(self, cls, args, kwargs, line=0):
         from . import builtins_ as bi
         r = bi.instantiate_special(self, cls, args, kwargs, line)
         if r is not NotImplemented:
             return r
-        o = Obj(cls, cls.name, symbolic=False, exact=True, name=cls.name.lower())
-        o.ref = self.fresh(cls.name + '_new_ref', INT)
-        if getattr(cls.module, 'is_pyx', False):
-            for fname, ct in self.program.all_fields(cls).items():
-                o.fields[fname] = self.default_field_value(ct)
+        o = self.allocate(cls)
         init = self.program.find_method(cls, '__init__')
         cinit = self.program.find_method(cls, '__cinit__')
         if cinit is not None:
